@@ -1015,7 +1015,7 @@ func (ta *taintAnalysis) typeSet(v ssa.Value, depth int, visiting map[ssa.Value]
 				idx = i
 			}
 		}
-		node := ta.p.CallGraph().Nodes[fn]
+		node := ta.p.cgNode(fn)
 		if node == nil || idx < 0 {
 			return nil, false
 		}
